@@ -25,6 +25,9 @@ PROP = {
   "saml2_tophat.sigver:SecurityContext.correctly_signed_message[name_id_mapping_request]",
   "saml2_tophat.sigver:SecurityContext.correctly_signed_message[name_id_mapping_response]"
  ],
+ "bounded": [
+  "sig_table"
+ ],
  "level": "other",
  "explanation": "Contract-level part of C01: at every acceptance site a relied-upon element's signature is verified by the tool for that element's own ID (XS_OK over --node-id) under an issuer key; the tool's argv is pinned by the E-XMLSEC axiom. The structural own-signature atom A4 (single Reference naming the element's ID) is a named obligation that fails on this tree (known finding); atoms A2/A3/A5/A6 are document-level facts no Python code establishes and are not decided.",
  "not_decided": [
